@@ -130,16 +130,24 @@ func eventsEqual(a, b sdk.Events) bool {
 }
 
 // withoutmw <pkt>: non-committing. Compares the real stack with blockibc -> ICS-20 (no orbiter).
-func (s *appState) withoutMW(d *driver, f []string) string {
+//
+// withoutmwc <pkt>: the same at component level: the orbiter middleware directly around ICS-20 (nothing stacked above
+// it) against ICS-20 alone. The middleware must be transparent whatever sits above it in a chain's stack.
+func (s *appState) withoutMW(d *driver, f []string, component bool) string {
 	pkt, ok := s.mkPacket(f)
 	if !ok {
 		return "bad-op"
 	}
-	var bare porttypes.IBCModule
+	var bare, with porttypes.IBCModule
 	bare = transfer.NewIBCModule(s.env.App.TransferKeeper)
-	bare = blockibc.NewIBCMiddleware(bare, s.env.App.FTFKeeper)
+	if component {
+		with = entrypoint.NewIBCMiddleware(bare, s.env.App.IBCKeeper.ChannelKeeper, s.env.App.OrbiterKeeper.Adapter())
+	} else {
+		bare = blockibc.NewIBCMiddleware(bare, s.env.App.FTFKeeper)
+		with = s.env.Stack
+	}
 	orbBefore := s.stateStr(s.env.Ctx)
-	a := s.branch(d, s.env.Stack, pkt)
+	a := s.branch(d, with, pkt)
 	b := s.branch(d, bare, pkt)
 	var diffs []string
 	if a.ack != b.ack || !bytes.Equal(a.ackBz, b.ackBz) {
